@@ -318,6 +318,29 @@ fn fixed_positive_cases() -> Vec<Case> {
     ]
 }
 
+/// parameter lists far longer than any placeholder numbering a maintainer tests by hand (around 256 and 512
+/// parameters): the body uses the first, second, 256th, 257th and last parameter
+fn wide_case(np: usize) -> Case {
+    // numbered names: pz1 is a prefix of pz10, pz100 (whole-word replacement), none is a reserved word
+    let name = |k: usize| format!("pz{}", k);
+    let params: Vec<String> = (0..np).map(name).collect();
+    let args: Vec<String> = (0..np).map(|k| format!("{}", 1000 + k)).collect();
+    let mut used: Vec<usize> = vec![0, 1, 254, 255, 256, 257, 511, 512, np - 1].into_iter().filter(|k| *k < np).collect();
+    used.dedup();
+    let regs = ["ax", "bx", "cx", "dx", "si", "di", "bp"];
+    let mut body = String::new();
+    let mut hand = String::new();
+    for (j, k) in used.iter().enumerate() {
+        body.push_str(&format!("mov {},{} ", regs[j % regs.len()], params[*k]));
+        hand.push_str(&format!("mov {},{} ", regs[j % regs.len()], args[*k]));
+    }
+    let defs = format!("macro wide({}) -> {}<-", params.join(","), body);
+    let pre = format!("{}\nstart:\nclc\n", defs);
+    let use_txt = format!("wide({})", args.join(","));
+    let text = format!("{}{}\nstc\n", pre, use_txt);
+    Case { text, expanded: Some(format!("start:\nclc\n{}\nstc\n", hand)), use_span: (pre.len(), pre.len() + use_txt.len()), kind: "hundreds-of-parameters" }
+}
+
 fn chain_case(depth: usize) -> Case {
     let mut defs = String::new();
     defs.push_str("macro c0(p) -> mov ax,p <-\n");
@@ -383,6 +406,9 @@ pub fn run(rep: &Report) {
     }
     for (i, c) in fixed_positive_cases().iter().enumerate() {
         judge(rep, c, Some(format!("pos{}", i)), 1);
+    }
+    for np in [100usize, 255, 256, 257, 258, 300, 513, 700] {
+        judge(rep, &wide_case(np), Some(format!("wide{}", np)), 1);
     }
     // chains: quick up to 64 in process
     for d in [1usize, 2, 3, 8, 33, 64] {
